@@ -3,6 +3,7 @@
 package hsd
 
 import (
+	"math"
 	"bytes"
 	"context"
 	"crypto/ed25519"
@@ -312,6 +313,15 @@ func (r *run) stateFor(class string) *structpb.Struct {
 	case "nested":
 		st, _ := structpb.NewStruct(map[string]any{"a": map[string]any{"b": []any{1.0, "x", map[string]any{"c": true}}}, "n": nil})
 		return st
+	case "odd":
+		// values a Go map round trip does not preserve: non-finite numbers, a value with no kind set (also nested)
+		return &structpb.Struct{Fields: map[string]*structpb.Value{
+			"limit":   structpb.NewNumberValue(math.Inf(1)),
+			"floor":   structpb.NewNumberValue(math.Inf(-1)),
+			"unset":   {},
+			"nested":  structpb.NewStructValue(&structpb.Struct{Fields: map[string]*structpb.Value{"inner": {}, "x": structpb.NewNumberValue(math.Inf(1))}}),
+			"regular": structpb.NewStringValue("v"),
+		}}
 	case "large":
 		m := map[string]any{}
 		for i := 0; i < 40; i++ {
@@ -497,7 +507,8 @@ func (r *run) connect(op map[string]any, ln *Line) {
 		c := hs.Client{Kind: s(op, "kind"), K: s(op, "k"), Ck: s(op, "ck"), Chain: s(op, "chain"), Priv: b(op, "priv"), Nsig: s(op, "nsig"),
 			St: s(op, "stt"), Skip: b(op, "skip"), Pref: s(op, "pref"), Cn: b(op, "cn")}
 		if xp := s(op, "xp"); xp != world.None {
-			c.Extras, c.XPos = []string{"app-proto", "zz", "late-one"}, xp
+			// application names are opaque bytes: padded with blanks, binary, invalid UTF-8, longer than 32 bytes
+			c.Extras, c.XPos = []string{"app-proto", "zz", " padded ", "bin\x01\xff", "mgmt", "mgmt ", strings.Repeat("long-name-", 5)}, xp
 		}
 		switch s(op, "nid") {
 		case "own":
@@ -529,7 +540,12 @@ func (r *run) connect(op map[string]any, ln *Line) {
 		ln.Obs.ClientErr = cerr
 		ln.Res = res.Kind
 	case "base":
-		res, cerr := srv.Exchange([]string{"app-proto", "__AUTH__", "__UNAUTH__"}, nil)
+		protos := []string{"app-proto", "__AUTH__", "__UNAUTH__"}
+		if b(op, "walpn") {
+			// a plain application client whose ALPN list also holds names with blanks, control bytes and invalid UTF-8
+			protos = []string{"app-proto", " padded ", "ctl\x01\x7f", "bad\xff\xfe", nodeenrollment.CertificatePreferenceV1Prefix + "x\x00y"}
+		}
+		res, cerr := srv.Exchange(protos, nil)
 		r.record(ln, res)
 		ln.Obs.ClientErr = cerr
 		ln.Res = res.Kind
@@ -975,6 +991,29 @@ func (r *run) malformedProtos(cls, pfx string) []string {
 		return []string{nodeenrollment.CertificatePreferenceV1Prefix + r.randB64(8)}
 	case "wrappedShort":
 		c, _ := nodetls.BreakIntoNextProtos(nodeenrollment.FetchNodeCredsNextProtoV1Prefix, r.validFetchB64(true))
+		return c
+	case "keyTrunc", "keyHeaderOnly", "keyLong":
+		// a fetch request whose certificate public key starts with the DER header of an Ed25519 key but is truncated,
+		// header-only or over-long (signed with a real key: the signature cannot verify, the shape must not crash anything)
+		info, err := r.srv.W.BuildInfo(world.FetchSpec{K: "kx", E: "e1", Nonce: "n1"})
+		if err != nil {
+			panic(err)
+		}
+		pk := info.CertificatePublicKeyPkix
+		switch cls {
+		case "keyTrunc":
+			info.CertificatePublicKeyPkix = pk[:len(pk)-1]
+		case "keyHeaderOnly":
+			info.CertificatePublicKeyPkix = pk[:12]
+		case "keyLong":
+			info.CertificatePublicKeyPkix = append(append([]byte{}, pk...), 1, 2, 3)
+		}
+		req, err := r.srv.W.SignInfo(info, "kx")
+		if err != nil {
+			panic(err)
+		}
+		bb, _ := proto.Marshal(req)
+		c, _ := nodetls.BreakIntoNextProtos(nodeenrollment.FetchNodeCredsNextProtoV1Prefix, base64.RawStdEncoding.EncodeToString(bb))
 		return c
 	case "unknownToken", "garbageToken":
 		// a well-signed fetch request presenting a well-formed activation token the server does not hold (used up, or
